@@ -329,7 +329,23 @@ def create_operator_decorator(
                 # When this key binding is matched, only set the operator
                 # function in the ViState. We should execute it after a text
                 # object has been received.
-                event.app.vi_state.operator_func = operator_func
+                # (The operator will be called with the event of the text
+                # object. Make sure it still sees the key sequence of the
+                # operator itself, because that's where operators like `"ad`
+                # take the register name from.)
+                operator_key_sequence = event.key_sequence
+
+                def operator_func_with_key_sequence(
+                    event: E, text_object: TextObject
+                ) -> None:
+                    key_sequence = event.key_sequence
+                    event.key_sequence = operator_key_sequence
+                    try:
+                        operator_func(event, text_object)
+                    finally:
+                        event.key_sequence = key_sequence
+
+                event.app.vi_state.operator_func = operator_func_with_key_sequence
                 event.app.vi_state.operator_arg = event.arg
 
             @key_bindings.add(
